@@ -19,8 +19,8 @@ RULE = (
     "2-D grid, case list) x reap mode/result kind in {raw int, raw ndarray, "
     "raw bool, raw str, raw tuple, raw tuples holding int / bool / str "
     "ndarrays, raw 2-D int ndarray, Runner-Dataset with 2 variables, "
-    "Runner-Dataset with an internal dimension, Dataset-valued function, "
-    "DataFrame}.  Oracle: which setting lives in which batch is read from the "
+    "Runner-Dataset with an internal dimension, Dataset-valued function (with text variables and auxiliary coordinates), "
+    "DataFrame, DataFrame of a Sampler crop}.  Oracle: which setting lives in which batch is read from the "
     "batch files; every position of a finished batch equals the direct run, "
     "every other position satisfies the missing-placeholder predicate (C02); "
     "the crop directory is byte-identical after the partial reap; reap() "
@@ -40,7 +40,7 @@ ASSUMPTIONS = [
 
 MODES = ["raw-int", "raw-ndarray", "raw-bool", "raw-str", "raw-tuple2",
          "raw-tuple_intarr", "raw-intarr2d", "raw-tuple_strarr",
-         "ds-2vars", "ds-internal", "ds-xobj", "df"]
+         "ds-2vars", "ds-internal", "ds-xobj", "df", "sampler-df"]
 
 
 def xyz():
@@ -59,7 +59,75 @@ def inputs(case):
     return {"a": list(range(100, 100 + N))}, None, None
 
 
+def sampled_value(a, b):
+    return float(models.kw_number({"a": a, "b": b}, salt=11) % 4096)
+
+
+def sampled_fn(a, b):
+    return sampled_value(a, b)
+
+
+def run_sampler(case):
+    """Partial reap of a Sampler crop (one output column): one row per sown
+    sample - the function's value where the batch is finished, a missing
+    value where it is not - and nothing deleted."""
+    x = xyz()
+    N, spec, finished = case["N"], case["spec"], case["finished"]
+    with core.scratch("xv-c09s-") as root:
+        r = x.Runner(sampled_fn, "y")
+        s = x.Sampler(r, data_name=os.path.join(root, "s.pkl"),
+                      default_combos={"a": [1, 2, 3, 4, 5],
+                                      "b": ["p", "q", "r"]})
+        np.random.seed(case["N"] * 31 + len(finished))
+        with under_test("sow samples / grow subset"):
+            crop = s.Crop(name="c9", parent_dir=root, **{spec[0]: spec[1]})
+            crop.sow_samples(N, verbosity=0)
+            B = len(crops.batch_ids(root, "c9"))
+            require(B == case["B"], "harness-batch-count", f"B={B}")
+            sown = {i: [(models.plain(kw["a"]), kw["b"]) for kw in
+                        crops.read_batch(root, "c9", i)]
+                    for i in range(1, B + 1)}
+            crop.grow(tuple(finished), verbosity=0)
+        cdir = crops.crop_dir(root, "c9")
+        digest0 = crops.tree_digest(cdir)
+        with under_test("reap(allow_incomplete=True) of a Sampler crop"):
+            part = crop.reap(allow_incomplete=True)
+        require(os.path.isdir(cdir) and crops.tree_digest(cdir) == digest0,
+                "partial-reap-changed-crop", "crop directory changed")
+        require(len(part) == N, "row-count",
+                f"{len(part)} rows for {N} sown samples (finished batches "
+                f"{finished} of {B})")
+        import collections
+        want_fin = collections.Counter(
+            ab for i in finished for ab in sown[i])
+        want_un = collections.Counter(
+            ab for i in sown if i not in finished for ab in sown[i])
+        got_fin, got_un = collections.Counter(), collections.Counter()
+        for k in range(len(part)):
+            row = part.iloc[k]
+            ab = (models.plain(row["a"]), row["b"])
+            if models.all_null(row["y"]):
+                got_un[ab] += 1
+            else:
+                require(float(row["y"]) == sampled_value(*ab),
+                        "finished-row-wrong",
+                        f"row {ab}: y={row['y']!r}, f gives "
+                        f"{sampled_value(*ab)}")
+                got_fin[ab] += 1
+        require(got_fin == want_fin and got_un == want_un,
+                "rows-not-the-samples",
+                lambda: f"finished rows {dict(got_fin)} (sown in finished "
+                        f"batches: {dict(want_fin)}); missing rows "
+                        f"{dict(got_un)} (sown in other batches: "
+                        f"{dict(want_un)})")
+    sizes = {i: len(v) for i, v in sown.items()}
+    return {"nontrivial": len(set(sizes.values())) > 1,
+            "classes": ["mode=sampler-df", f"B={B}"]}
+
+
 def run_case(case):
+    if case["mode"] == "sampler-df":
+        return run_sampler(case)
     x = xyz()
     from xyzpy.utils import XYZError
     mode = case["mode"]
@@ -89,6 +157,8 @@ def run_case(case):
                     # the function's Dataset also carries a scalar and an
                     # auxiliary (non-index) coordinate
                     lspec["aux_coords"] = True
+                if case["N"] % 3 != 1:
+                    lspec["str_vars"] = True
             else:
                 lspec = {"vars": [["out", []], ["E", []]], "sizes": {},
                          "ret": "tuple"}
@@ -222,6 +292,27 @@ def run_case(case):
                 requested=requested, fn_kwargs_extra={}, constants={},
                 resources={}, attrs={}, var_coords=var_coords,
                 explicit_names=not xobj, tag="partial")
+            if lspec.get("str_vars"):
+                # the text variables: the function's text where finished, a
+                # null (not the string 'nan') elsewhere
+                for loc in locs:
+                    kw_ = dict(zip(largs, loc))
+                    for nm_ in ("tag", "lab"):
+                        got_ = np.asarray(part[nm_].sel(kw_).values,
+                                          dtype=object).ravel().tolist()
+                        if is_fin[loc]:
+                            want_ = [labelled.text_value(kw_)] \
+                                if nm_ == "tag" else \
+                                [labelled.text_value(kw_) + "-%d" % i
+                                 for i in range(len(got_))]
+                            require(got_ == want_, "finished-cell-wrong",
+                                    f"{nm_} at {kw_}: {got_!r}, the function "
+                                    f"returned {want_!r}")
+                        else:
+                            require(all(models.all_null(g) for g in got_),
+                                    "unfinished-cell-not-missing",
+                                    f"{nm_} at {kw_} (batch not grown): "
+                                    f"{got_!r} is not a missing value")
 
         # ---------------- somebody else grows one more batch; a second
         # partial reap on the SAME crop object must see it
